@@ -296,8 +296,13 @@ def frame_order_ser(chk, b, inst):
     calls = list(b.calls())
     len_calls = [(bb, t) for bb, t in calls if callee(t) == "zvt_builder::length::Length::serialize"]
     if not len_calls:
-        # closures (Vec impl) delegate inside a closure body
-        chk.ok("C01-d/delegates", inst, "delegates to inner serialize_tagged", b.sp(), nontrivial=False)
+        # no length prefix written here: then the framing must be somebody else's - a call of serialize_tagged in this body or
+        # in a closure of it (Option / Vec impls).  A body that writes its own length bytes by hand has neither.
+        scope = [b] + ([c_ for c_ in b.crate.bodies.values() if c_.id.startswith(b.id + "::{closure")] if b.crate is not None else [])
+        deleg = [t for s_ in scope for _, t in s_.calls() if callee(t) == layout.SER]
+        chk.require(bool(deleg), "C01-d/frame-shape", inst,
+                    "the value is framed without L::serialize and without delegating to another serialize_tagged: a length prefix written "
+                    "by hand is outside every length-style rule", "L::serialize(len(payload)) or delegation", b.sp())
         return
     GROW = ("alloc::vec::Vec::<T, A>::append", "alloc::vec::Vec::<T, A>::extend_from_slice", "core::iter::traits::collect::Extend::extend",
             "alloc::vec::Vec::<T, A>::extend_from_within")
